@@ -68,7 +68,7 @@ def make_scenario(seed, idx, U):
     lens = [int(rng.integers(300, 2500)) for _ in range(U)]
     lens[int(rng.integers(U))] = 60000  # a feature file of several hundred KiB
     cfg = {"name": "stft", "bank": {"name": "fbank", "num_filts": 5, "sampling_rate": 8000, "high_hz": 3800.0}, "frame_length_ms": 25, "frame_shift_ms": 10}
-    return {"idx": idx, "ids": ids, "lens": lens, "cfg": cfg, "pre": [{"name": "preemph"}, {"name": "dither", "coeff": 3.0}], "seed_opt": int(rng.integers(0, 50)),
+    return {"idx": idx, "ids": ids, "lens": lens, "cfg": cfg, "pre": [{"name": "preemph"}, {"name": "dither", "coeff": 3.0}], "seed_opt": 0 if idx % 2 == 0 else int(rng.integers(1, 50)),
             "containers": [str(rng.choice(["npy", "pt"])) for _ in range(U)]}
 
 
